@@ -222,3 +222,26 @@ func (e *VEnv) PrevStatePower(i int) (int64, bool) {
 	e.K.cdc.MustUnmarshalBinaryLengthPrefixed(bz, &p)
 	return p, true
 }
+
+// VHandleVote / VMissedAt: one vote of validator i through handleValidatorSignature; slot s of its missed-block window.
+func (k Keeper) VHandleVote(ctx sdk.Ctx, e *VEnv, i int, power int64, signed bool) {
+	k.handleValidatorSignature(ctx, e.Pubs[i].Address(), power, signed)
+}
+func (k Keeper) VMissedAt(ctx sdk.Ctx, e *VEnv, i int, slot int64) bool {
+	return k.getMissedBlockArray(ctx, e.Addrs[i], slot)
+}
+
+// VRestart: what a restarted process has - freshly constructed keepers (nothing remembered in memory) over the same
+// stores and the same block context.
+func VRestart(e *VEnv) *VEnv {
+	r := *e
+	cdc := vMakeCodec()
+	maccPerms := map[string][]string{
+		auth.FeeCollectorName: nil,
+		types.StakedPoolName:  {auth.Burner, auth.Staking, auth.Minter},
+		types.ModuleName:      {auth.Burner, auth.Staking, auth.Minter},
+	}
+	r.AK = authkeeper.NewKeeper(cdc, e.KeyAcc, sdk.NewSubspace(auth.DefaultParamspace), maccPerms)
+	r.K = NewKeeper(cdc, e.KeyPOS, r.AK, sdk.NewSubspace(DefaultParamspace), DefaultParamspace)
+	return &r
+}
